@@ -121,3 +121,36 @@ class PrefixedCtx:
     def assume(self, s): self._c.assume(s)
     def body(self, key): return self._c.body(key)
     def body_of(self, f): return self._c.body_of(f)
+
+
+def arm(arms, other, k):
+    """target of variant k of a two-variant enum switch: listed arm, else the `otherwise` edge"""
+    return arms.get(k, other)
+
+
+def option_test_edges(body, dag, result_local):
+    """all tests of an Option / Result held in `result_local`: list of (block, has_value_target, empty_target).
+    Recognises `match` (discriminant switch, either arm possibly being `otherwise`) and is_some / is_none / is_ok / is_err boolean tests."""
+    out = []
+    ty = body.locals[result_local]["ty"]
+    value_variant = 0 if ty.startswith("std::result::Result") else 1
+    for b in sorted(body.reachable):
+        vs = variant_switch(body, dag, b)
+        if vs and vs[3] == result_local and not vs[4]:
+            out.append((b, vs[1].get(value_variant, vs[2]), vs[1].get(1 - value_variant, vs[2]))); continue
+        t = body.term(b)
+        if t[0] == "Switch" and t[5] == "bool":
+            e = dag.expr(t[1]); neg = False
+            while e[0] == "un" and e[1] == "Not": e = e[2]; neg = not neg
+            if e[0] == "call" and e[1].split("::")[-1] in ("is_some", "is_ok", "is_none", "is_err") and len(e[2]) == 1:
+                a = D.strip_casts(e[2][0])
+                d = body.single_def(result_local)
+                same = (a[0] == "ref?" and a[1] in (f"_{result_local}", f"(*_{result_local})")) or (d is not None and a == dag.rvalue(d, 0)) or \
+                       (a[0] == "call" and d is not None and d[2][0] == "CallRes" and len(a) > 3 and a[3] == d[0])
+                if not same: continue
+                zero = [tg for (v, tg) in t[2] if v == 0]
+                if not zero: continue
+                truthy_has_value = e[1].split("::")[-1] in ("is_some", "is_ok")
+                if neg: truthy_has_value = not truthy_has_value
+                out.append((b, t[3], zero[0]) if truthy_has_value else (b, zero[0], t[3]))
+    return out
